@@ -77,9 +77,29 @@ NEEDS = {
  'C17d': ("valid() skips categories 'covered' by another one with the argument order reversed", "a filter containing an ancestor/descendant pair"),
  'C19d': ("public.concat pops trailing pairs with to <= from", "a last fragment that contains exactly one barline"),
  'C20d': ("Generic.store compares os.path.getsize (bytes) with len(content) (characters)", "dump of an export containing a non-ASCII character (lyrics, or any eKern export with decorations)"),
+ 'C01e': ("plain-kern fast path returns token.encoding for every SimpleToken (ChordToken is one)", "a chord whose notes carry signifiers in non-canonical order / repeated, default export"),
+ 'C02e': ("exporter subtracts from the shared SPINE_OPERATIONS set in place (opening_operations -= ...)", "any export with to_measure, then a later import of a text with spine operators"),
+ 'C03e': ("BoundingBoxToken.export rebuilds the cell from its fields (the first box of a page was extended in place by the importer)", ">= 2 *xywh boxes on one page"),
+ 'C04e': ("BoundingBoxToken.export(filter_categories=None) no longer swallows the agnostic tokenizers' extra keyword", "a *xywh token and the akern / aekern encoding"),
+ 'C05e': ("ChordToken derives from ComplexToken: chords bypass the category gate of Exporter.append_row", "a chord and a selection that does not contain CHORD"),
+ 'C06e': ("dumps() keyword parsing skips falsy values", "spine_ids=[] or spine_types=[] (the empty selection)"),
+ 'C07e': ("dumps() keyword parsing uses 'value or default'", "to_measure=0 with from_measure >= 1 (end before start)"),
+ 'C08e': ("adjacent *v merged only when they close the same split", "a nested split (>= 3 sub-spines) re-joined before the barline in a spine that is not the last, spines with different signatures, a range starting later"),
+ 'C09e': ("to_transposed registers lower-case interval names in the shared IntervalsByName table", "one call with an unknown / differently capitalised interval name, then any interval query"),
+ 'C10e': ("KernTokenizer stops stripping '@' / '·' from comments and lyrics; AKernTokenizer still strips them", "a field comment or lyric containing '@' or '·', kern vs agnostic export"),
+ 'C11e': ("valid() skips the descendant expansion when len(include) >= 16 (number of top-level entries)", "an include selection of 16..36 categories that is not closed under descendants"),
+ 'C12e': ("imported text is NFC-normalised before the line reader", "a malformed cell containing a combining mark after a composable letter, or a singleton code point (U+212B)"),
+ 'C13e': ("adjacent *v of a spine are closed two by two", "a join of three sub-spines on one line and a spine selection / measure range"),
+ 'C14e': ("helper count_by(items, key, counts={}) with a mutable default builds the exporter's live-path table", ">= 2 from_measure exports of one Document with two-sided nested splits closed by one multi-way join"),
+ 'C15e': ("pitch importer regex accepts at most four equal letters", "a note in octave >= 8 or <= -1 (five or more letters), in the source or reached by a first transposition"),
+ 'C16e': ("import_pitch picks the pitch with a regex that allows at most five equal letters", "a six-letter spelling (octave 9 / -2)"),
+ 'C17e': ("Exporter.get_spine_types exports the header with to_measure=1", "is_monophonic / spine_types on a document without any measure"),
+ 'C18e': ("kern importer built through a helper that attaches the collecting error listener to the parser only", "a cell with a character the kern lexer does not know, in a non-kern spine"),
+ 'C19e': ("an invisible barline (=-) no longer opens a measure", "a score with an invisible barline and a cut placed at it"),
+ 'C20e': ("_write creates the target directory with mkdir() without parents=True", "dump to a path whose parent and grand-parent directories are both missing"),
 }
-MISSED_FIRST = {'C02a', 'C04a', 'C10a', 'C16a', 'C20a', 'C20b', 'C18b', 'C03d'}
-STRENGTHENED_BEFORE_FIRST_RUN = {'C16b', 'C04b', 'C11b', 'C11c', 'C09c', 'C04c', 'C01c', 'C07d', 'C06d', 'C12d', 'C10d'}
+MISSED_FIRST = {'C02a', 'C04a', 'C10a', 'C16a', 'C20a', 'C20b', 'C18b', 'C03d', 'C17e', 'C14e', 'C10e', 'C04e', 'C12e', 'C08e', 'C19e'}
+STRENGTHENED_BEFORE_FIRST_RUN = {'C16b', 'C04b', 'C11b', 'C11c', 'C09c', 'C04c', 'C01c', 'C07d', 'C06d', 'C12d', 'C10d', 'C09e', 'C18e', 'C03e', 'C11e', 'C02e'}
 HEAD = subprocess.run(['git', '-C', '/repo', 'rev-parse', '--short', 'HEAD'], capture_output=True, text=True).stdout.strip()
 # changes that a later fix: commit in /repo made harmless (kept for the record; they were confirmed and caught at the commit named)
 NEUTRALISED = {
